@@ -64,6 +64,11 @@ TStored ==
 
 (* ---- the loader ---- *)
 TLoad == HasEv("load") /\ Consume /\ PreCheck /\ Keep
+\* encase: there is no file and no store(); the structure is wrapped without any call
+TEncase ==
+  /\ HasEv("load") /\ loader = "encase" /\ pcl = "store" /\ Consume /\ Keep
+  /\ caseS' = TRUE /\ pcl' = "ret" /\ fileIs' = "exact"
+  /\ UNCHANGED <<prior, loader, flags, cause, flen, region, advised, caseB, result, owner, readers, sDropped, order, steps>>
 \* path.metadata(): statx on the case path
 TStat ==
   /\ HasEv("stat") /\ pcl = "stat" /\ loader # "load_full" /\ Consume /\ Keep
@@ -182,7 +187,7 @@ TDropped ==
   /\ UNCHANGED <<prior, fileIs, loader, flags, cause, flen, region, advised, caseB, caseS, result, owner, readers, sDropped, order, steps>>
 
 TNext ==
-  \/ TCase \/ TCreate \/ TWrite \/ TStored \/ TLoad \/ TStat \/ TOpen \/ TMap \/ THeapAlloc \/ TNoMap
+  \/ TCase \/ TCreate \/ TWrite \/ TStored \/ TLoad \/ TEncase \/ TStat \/ TOpen \/ TMap \/ THeapAlloc \/ TNoMap
   \/ TAdvise \/ TAdviseDone \/ TRead \/ TNoRead \/ TProtect \/ TWrapSilent \/ TClose \/ TSilent
   \/ TNoHeapAlloc \/ TReleaseOnError \/ TReleaseOnErrorSilent \/ TReturned \/ TLoaded \/ TOp \/ TSDrop \/ TSDropSilent \/ TRelease \/ TDropBSilent \/ TDropped
 
